@@ -48,6 +48,7 @@ func runC18(r *Result, d *drv.Driver, tier string, seed int64, replay string) {
 		r.distinctSet[strconv.Itoa(i)] = true
 	}
 	c18StructTagsStable(r, seed)
+	c18Options(r)
 	// samples: what the real encoder emits for a few annotations
 	for _, name := range []string{"UNIQUE_IDENTIFIER", "REQUEST_MESSAGE", "SENSITIVE"} {
 		r.sample(map[string]string{"annotation": name, "real_encode": encodeWithAnnotation(name)})
@@ -347,4 +348,68 @@ func c18StructTagsStable(r *Result, seed int64) {
 		}
 	}
 	observe("after the same types were written and read under other tags")
+}
+
+// c18Options: a tag name resolves to its number whatever OPTIONS follow it in the annotation. For every key of the tagMap
+// literal, a struct {A int32 `kmip:"X,skip"`; B int32 `kmip:"Y"`} (Y another name) decodes a structure holding only an item
+// tagged Y: field A (tag X, optional, skipped) must not claim it, so B receives the value; and with an item X in front, A
+// swallows X and B still receives Y. Likewise `kmip:"X"` without options (optional field) must not claim Y.
+func c18Options(r *Result) {
+	tagNum := map[string]uint32{}
+	for _, c := range gentab.Consts {
+		if c.Typ == "Tag" {
+			tagNum[c.Name] = uint32(c.Num)
+		}
+	}
+	var names []string
+	for _, kv := range gentab.MapKeys["tagMap"] {
+		names = append(names, strings.SplitN(kv, "=", 2)[0])
+	}
+	item := func(tag uint32, v byte) []byte {
+		return []byte{byte(tag >> 16), byte(tag >> 8), byte(tag), 2, 0, 0, 0, 4, 0, 0, 0, v, 0, 0, 0, 0}
+	}
+	wrap := func(body []byte) []byte {
+		return append([]byte{0x42, 0x00, 0x01, 0x01, 0, 0, 0, byte(len(body))}, body...)
+	}
+	bad := 0
+	for _, x := range names {
+		if x == "-" || x == "ANY_TAG" || tagNum[x] == 0 {
+			continue
+		}
+		y := "APPLICATION_DATA"
+		if x == y {
+			y = "APPLICATION_NAMESPACE"
+		}
+		for _, opt := range []string{",skip", ""} {
+			st := reflect.StructOf([]reflect.StructField{
+				{Name: "Tag", Type: reflect.TypeOf(kmip.Tag(0)), Tag: `kmip:"ACTIVATION_DATE"`, Anonymous: true},
+				{Name: "A", Type: reflect.TypeOf(int32(0)), Tag: reflect.StructTag(fmt.Sprintf(`kmip:"%s%s"`, x, opt))},
+				{Name: "B", Type: reflect.TypeOf(int32(0)), Tag: reflect.StructTag(fmt.Sprintf(`kmip:"%s"`, y))},
+			})
+			for _, withX := range []bool{false, true} {
+				body := item(tagNum[y], 7)
+				if withX {
+					body = append(item(tagNum[x], 9), body...)
+				}
+				tgt := reflect.New(st)
+				var err error
+				func() {
+					defer func() {
+						if p := recover(); p != nil {
+							err = fmt.Errorf("panic: %v", p)
+						}
+					}()
+					err = kmip.NewDecoder(bytes.NewReader(wrap(body))).Decode(tgt.Interface())
+				}()
+				r.Evaluations++
+				gotB := tgt.Elem().Field(2).Int()
+				if (err != nil || gotB != 7) && bad < 5 {
+					bad++
+					r.find(Finding{Kind: "violation", What: "annotation kmip:\"" + x + opt + "\" does not resolve to the number of " + x + " (a field annotated with it claimed, or failed to step aside for, an item of another tag)",
+						Input: map[string]string{"annotation": x + opt, "other field": y, "message": hex.EncodeToString(wrap(body))}, Expect: "B = 7, no error", Actual: fmt.Sprintf("B = %d, err = %v", gotB, err)})
+				}
+			}
+		}
+	}
+	r.Stats["annotation-option-probes"] = len(names) * 4
 }
